@@ -88,9 +88,13 @@ func runC19(rc *RunCtx) {
 	}
 	sc.Hooks = true
 	sc.ObserveParse = sc.Kind != KSerial && t.Choose(2) == 0 // otherwise the client comes from the protocol's own constructor
-	sc.WrappedTimeouts = sc.Kind != KSerial && t.Choose(2) == 1
+	sc.WrappedTimeouts = t.Choose(2) == 1
 	sc.DeadlinePort = sc.Kind == KSerial && !sc.Flusher && t.Choose(2) == 1
 	nilOpt := t.Choose(2) == 1
+	sc.ValueHooks = t.Choose(3) == 0
+	for n := sc.Then; n != nil; n = n.Then {
+		n.ValueHooks = sc.ValueHooks
+	}
 	for n := sc.Then; n != nil; n = n.Then {
 		n.DeadlinePort = sc.DeadlinePort
 	}
